@@ -68,6 +68,8 @@ class State:
         self.auto_named = 0
         self.duplicate_names = 0
         self.removed_duplicate = 0
+        self.used_currents = []
+        self.reused_objects = 0
 
     @property
     def model(self):  # names currently present (with repetitions)
@@ -286,9 +288,15 @@ def apply_op(state, op):
             if not state.stations:
                 return
             cur, co, flag = build_expr(op["expr"])
+            if op.get("reuse_object") is not None and state.used_currents:
+                # the very Current object of an earlier add (the caller kept it) is handed in again
+                cur, co, flag, _tree = state.used_currents[op["reuse_object"] % len(state.used_currents)]
+                op = dict(op, expr=_tree)
+                state.reused_objects += 1
             before_names = list(net.constraint_index)
             adopt = has_repeated_ids(op["expr"])
             before = snapshot(net)
+            state.used_currents.append((cur, co, flag, op["expr"]))
             try:
                 net.add_constraint(cur, op["limit"], name=op["name"])
             except Exception:
@@ -302,6 +310,12 @@ def apply_op(state, op):
             got_name = new_name_after_add(state, before_names)
             if op["name"] is None:
                 state.auto_named += 1
+                # an unnamed constraint is numbered by its position: "_const_<number of constraints
+                # before it>" (with the collision suffix if that name is taken) - whatever the
+                # Current object has been used for before
+                base = "_const_%d" % len(before_names)
+                want_name = base if base not in before_names else base + "_v2"
+                require(got_name == want_name, "constraint_names", lambda: "constraint added without a name as the %d-th is called %r, expected %r" % (len(before_names), got_name, want_name))
             elif op["name"] in before_names:
                 require(got_name != op["name"] or before_names.count(op["name"]) == 0, "constraint_names", lambda: "a second constraint was stored under the existing name %r" % op["name"])
             else:
@@ -454,6 +468,8 @@ def labels_of(state, log):
         labs.append("duplicate_names")
     if state.removed_duplicate:
         labs.append("removed_one_of_two_equally_named")
+    if state.reused_objects:
+        labs.append("current_object_added_again")
     if state.json:
         labs.append("json_roundtrip")
     if state.linear_queries:
@@ -509,7 +525,8 @@ class ConstraintMachine(LoggedMachine):
             name = None  # the network picks "_const_<n>" (which may collide with an earlier one)
         elif how == "collide" and self.state.model:
             name = data.draw(st.sampled_from(sorted(set(self.state.model))))  # stored under "<name>_v2"
-        self.do({"op": "add", "name": name, "limit": limit, "expr": data.draw(exprs(self.ids()))})
+        reuse = data.draw(st.sampled_from([None, None, None, 0, 1, 2, 5])) if self.state.used_currents else None
+        self.do({"op": "add", "name": name, "limit": limit, "expr": data.draw(exprs(self.ids())), "reuse_object": reuse})
 
     @precondition(lambda self: len(self.state.model) >= 1)
     @rule(data=st.data(), limit=st.sampled_from([7.0, 99.0]))
@@ -574,7 +591,7 @@ def subchecks(tier):
             quick=400,
             thorough=40000,
             steps=25,
-            floors={"json_roundtrip": 0.1, "linear_query": 0.05, "remove_or_update_after_two_adds": 0.134, "scalar_multiple_inside_sum": 0.128, "subset_query": 0.101, "failed_add": 0.117, "removed_one_of_two_equally_named": 0.1},
+            floors={"json_roundtrip": 0.1, "linear_query": 0.05, "remove_or_update_after_two_adds": 0.134, "scalar_multiple_inside_sum": 0.128, "subset_query": 0.101, "failed_add": 0.117, "removed_one_of_two_equally_named": 0.1, "current_object_added_again": 0.1},
         )
     ]
 
